@@ -34,12 +34,12 @@ ERROR_TOKENS = ["1e999", "-1e999", "1e400", "9.9e999", "123456789012345678901234
                 "FFFFFFFFFFFFFFFFFFFFFFFFFFFFFFFFFFFFFFFFFFFFFFFFFFFFFFFFFFFFFFFFFFFFFFFFFFFFFFFFFFFFFFFFFFFFFFFFFFFFFFFFFFFFFFFFFFFFFFFFFFFFFFFFFFFFFFFFFFFFFFFFFFFFFFFFFFFFFFFFFFFFFFFFFFFFFFFFFFFFFFFFFFFFFFFF"]
 
 
-def _alphabet():
+def _alphabet(big=False):
     import importlib.util
     spec = importlib.util.spec_from_file_location("corpus_gen", os.path.join(vlib.ROOT, "gen", "corpus.py"))
     m = importlib.util.module_from_spec(spec)
     spec.loader.exec_module(m)
-    toks = [t.replace("\u00a7", "\\") for t in m.TOKENS] + [t.replace("\\\\", "\\") for t in ERROR_TOKENS]
+    toks = (m.big_tokens() if big else [t.replace("\u00a7", "\\") for t in m.TOKENS]) + [t.replace("\\\\", "\\") for t in ERROR_TOKENS]
     return [list(t.encode("utf-8")) for t in toks]
 
 
@@ -53,7 +53,7 @@ def run(ctx):
     cases = ctx.path("cases.ndjson")
     vlib.write_ndjson(cases, res.replay)
     out, tracep = common.harness_json(ctx, "c19", {"cases_file": cases, "seed": ctx.seed, "random_values": 300 if q else 40000,
-                                                    "random_junk": 4000 if q else 6000000, "alphabet_extra": _alphabet(), "trace_bytes": 250000 if q else 12000000})
+                                                    "random_junk": 4000 if q else 6000000, "alphabet_extra": _alphabet(big=not q), "trace_bytes": 250000 if q else 12000000})
     tres, events = _report(ctx, out, tracep)
     ctx.cov["evaluations"] = out["evaluations"] + out["prefixes"]
     ctx.cov["distinct_nontrivial"] = out["distinct_wellformed"]
